@@ -80,7 +80,13 @@ def mk_owner(kind, mode, raising):
     logs = {"static": [], "otc": [], "observe": [], "other": []}
     md = {"comparison_mode": mode}
     foreign = None
-    if kind in ("any", "any-magic", "any-subdefault", "any-second-use", "any-shared-ctrait"):
+    if kind == "any-mode-switched":
+        # the definition was made with ANOTHER comparison mode and switched afterwards (CTrait.comparison_mode = ...): the compiled
+        # flag bits and what the Python filters read must agree on the mode now in force
+        other = ComparisonMode.identity if mode != ComparisonMode.identity else ComparisonMode.none
+        tr = Any(comparison_mode=other).as_ctrait()
+        tr.comparison_mode = mode
+    elif kind in ("any", "any-magic", "any-subdefault", "any-second-use", "any-shared-ctrait"):
         tr = Any(**md)
     elif kind == "int":
         tr = Int(**md)
@@ -570,6 +576,99 @@ def listener_object_harness(ex):
         pop_exception_handler()
 
 
+def dispatch_mutation_harness(ex):
+    """handlers that change the handler population WHILE a change is being dispatched, on every route (the trait's own handlers,
+    object-level handlers registered without a name, observe): a handler that unregisters itself (or a later one) does not make
+    the others miss this change; a handler registered during the dispatch hears the NEXT change, not this one; two listener
+    objects that compare equal are two handlers"""
+    push_exception_handler(lambda *a: None, reraise_exceptions=False)
+    try:
+        route = ex.choice("route", 3)          # 0: named on_trait_change, 1: name-less (object-level), 2: observe
+
+        class O(HasTraits):
+            x = Int(0)
+            y = Int(0)
+
+        o = O()
+        calls = []
+
+        def reg(h, remove=False):
+            if route == 0:
+                o.on_trait_change(h, "x", remove=remove)
+            elif route == 1:
+                o.on_trait_change(h, remove=remove)
+            else:
+                o.observe(h, "x", remove=remove)
+
+        def second(*a):
+            calls.append("second")
+
+        def late(*a):
+            calls.append("late")
+
+        what = ex.choice("first_handler_does", 3)
+
+        done = []
+
+        def first(*a):
+            calls.append("first")
+            if done:
+                return
+            done.append(1)
+            if what == 0:
+                reg(first, remove=True)          # one-shot: takes itself off
+            elif what == 1:
+                reg(second, remove=True)         # takes a LATER handler off: by documented snapshot semantics it still hears this change
+            else:
+                reg(late)                        # adds a handler: it must not hear the change that was already under way
+
+        if route == 2:
+            first_h, second_h, late_h = (lambda e: first()), (lambda e: second()), (lambda e: late())
+            # observe needs stable callables for removal
+            table = {}
+            def reg(h, remove=False, _t=table):           # noqa: F811
+                hh = _t.setdefault(h, (lambda e, h=h: h()))
+                o.observe(hh, "x", remove=remove)
+        reg(first)
+        reg(second)
+        o.x = 1
+        ex.check(calls.count("first") == 1 and calls.count("second") == 1, "a handler that changes the handler population during the "
+                                                                           "dispatch does not make another handler miss the change")
+        ex.check("late" not in calls, "a handler registered during a dispatch does not hear the change that was under way")
+        del calls[:]
+        o.x = 2
+        want = {"first": 0 if what == 0 else 1, "second": 0 if what == 1 else 1, "late": 1 if what == 2 else 0}
+        ex.check(all(calls.count(k_) == (1 if v_ else 0) for k_, v_ in want.items()) or what == 2 and calls.count("late") >= 1 and
+                 calls.count("first") == 1 and calls.count("second") == 1,
+                 "the next change is heard by exactly the handlers now registered")
+        # two listener objects that compare equal, same method name
+        class L:
+            def __init__(self, tag):
+                self.tag = tag
+
+            def __eq__(self, other):
+                return isinstance(other, L)
+
+            def __hash__(self):
+                return 1
+
+            def on_y(self, *a):
+                calls.append(self.tag)
+        l1, l2 = L("l1"), L("l2")
+        if route == 2:
+            o.observe(l1.on_y, "y")
+            o.observe(l2.on_y, "y")
+        else:
+            o.on_trait_change(l1.on_y, "y")
+            o.on_trait_change(l2.on_y, "y")
+        del calls[:]
+        o.y = 5
+        ex.check(sorted(c for c in calls if c in ("l1", "l2")) == ["l1", "l2"], "two listener objects that compare equal are two handlers")
+        return {"route": route, "what": what}
+    finally:
+        pop_exception_handler()
+
+
 def obligations(tier, build):
     cenv.load_program(build)
     obs = []
@@ -616,7 +715,7 @@ def obligations(tier, build):
                                   bounds={"history": list(seq), "comparison mode": mode.name,
                                           "quiet update": "trait_setq / trait_set(trait_change_notify=False), natively"},
                                   leverage="equality of payloads", max_paths=2000))
-        for owner_ in ("any-subdefault", "any-second-use", "any-shared-ctrait"):
+        for owner_ in ("any-subdefault", "any-second-use", "any-shared-ctrait", "any-mode-switched"):
             for seq in [("int", "int"), ("int", "same"), ("int", "float"), ("none", "none")]:
                 obs.append(Obligation("%s/%s/%s" % (owner_, mode.name, "-".join(seq)), make_harness(owner_, mode, seq, None, False), stubs=STUBS,
                                       bounds={"history": list(seq), "comparison mode": mode.name,
@@ -643,6 +742,10 @@ def obligations(tier, build):
                                           "exception handler": "observe's default (logging)"},
                                   leverage="choice feasibility only", max_paths=2000))
     KD = 3 if tier == "quick" else 4
+    obs.append(Obligation("dispatch-mutation", dispatch_mutation_harness, stubs=[],
+                          bounds={"routes": ["named on_trait_change", "name-less on_trait_change", "observe"],
+                                  "the first handler": ["unregisters itself", "unregisters a later handler", "registers another handler"]},
+                          leverage="choice feasibility only (compiled code runs concretely)"))
     obs.append(Obligation("listener-object", listener_object_harness, stubs=[],
                           bounds={"history length": 3, "prefixes": ["(default)", "alt", "alt_", "x"], "methods": "<prefix>_<name>_changed / _fired / anytrait"},
                           leverage="choice feasibility only (compiled code runs concretely)"))
